@@ -210,6 +210,7 @@ fn judge_tree(rep: &mut Report, tree: &ClassFile, sub: &Subject) -> Outcome {
                 rep.count("methods.with_long_form_jump");
                 for e in &ec.exceptions { if e.start > fw || e.handler > fw { rep.count("anchors.exception_after_widened"); } if e.start <= fw && e.end > fw { rep.count("anchors.exception_spanning_widened"); } }
                 if let Some(l) = &ec.line_numbers { for (p, _) in l { rep.count(if *p > fw { "anchors.line_after_widened" } else { "anchors.line_before_widened" }); } }
+                for ta in ec.vis_type_annotations.iter().chain(&ec.invis_type_annotations) { match &ta.target { Target::Offset(_, p) | Target::TypeArgument(_, p, _) if *p > fw => rep.count("anchors.type_annotation_after_widened"), Target::LocalVar(_, t) if t.iter().any(|(s, e, _)| *s <= fw && *e > fw) => rep.count("anchors.type_annotation_range_spanning_widened"), _ => {} } }
                 if let Some(l) = &ec.lvt { for v in l { if v.start <= fw && v.end > fw { rep.count("anchors.local_spanning_widened"); } else if v.start > fw { rep.count("anchors.local_after_widened"); } } }
                 // switch arms pointing behind a widened jump
                 for ins in &ec.insns { if let Insn::TableSwitch { targets, .. } = ins { if targets.iter().any(|t| *t > fw) { rep.count("anchors.switch_arm_after_widened"); } } if let Insn::LookupSwitch { pairs, .. } = ins { if pairs.iter().any(|(_, t)| *t > fw) { rep.count("anchors.switch_arm_after_widened"); } } }
@@ -344,12 +345,17 @@ fn self_checks() {
     if !r.problems.iter().any(|p| p.0.contains("strictly increase")) || !r.problems.iter().any(|p| p.0.contains("jumps + 1")) { die("event canary: non-increasing |wide| / too many attempts not flagged"); }
     if events::check(&ok, &[1], Some(&[14]), Some(4)).problems.is_empty() { die("event canary: wrong final length not flagged"); }
     if events::check(&[ok[0].clone(), ok[1].clone(), E::Pool { count: 5, entries: 2, two_slot_entries: 1 }], &[1], Some(&[15]), Some(5)).problems.is_empty() { die("event canary: wrong pool accounting not flagged"); }
-    // whole comparison on a real write: a deliberately wrong expectation must be flagged
+    // whole comparison (no repository code involved): the harness' own emission of a scenario, parsed back, against a
+    // deliberately wrong expectation
     let mut rng = Rng::new(11);
     let (s, b) = build_scenario(&Spec::S1(0, 0), &mut rng).unwrap_or_else(|e| die(&format!("scenario canary: {e}")));
-    let tree = duke::read_class(&mut Cursor::new(&b)).unwrap_or_else(|e| die(&format!("scenario canary: reader: {e:#}")));
-    let mut w = Vec::new(); if let Err(e) = duke::write_class(&mut w, &tree) { die(&format!("scenario canary: writer: {e:#}")); }
-    let obs = parse::parse(&w).unwrap_or_else(|e| die(&format!("scenario canary: validator: {e}")));
+    let obs = parse::parse(&b).unwrap_or_else(|e| die(&format!("scenario canary: validator: {e}")));
+    {
+        let mut probe = Report::new(); let info = json!(null);
+        let sub = Subject { what: "canary", src: &b, src_pool_count: 0, renamed: None, info: &info };
+        compare(&mut probe, "C02", true, &s.class, &obs, &sub);
+        if !probe.violations.is_empty() { die("comparison canary: equal classes were flagged"); }
+    }
     let mut wrong = s.class.clone();
     if let Some(c) = wrong.methods[0].code.as_mut() { if let Some(Insn::Branch(_, t)) = c.insns.iter_mut().find(|i| matches!(i, Insn::Branch(..))) { *t += 1; } }
     let mut probe = Report::new();
@@ -370,6 +376,7 @@ fn main() {
     let specs = plan(ctx.tier);
     run_cases(&ctx, &replay, &mut rep, "scenarios", specs.len() as u64, |rng, rep, i| {
         let spec = &specs[i as usize];
+        let t0 = std::time::Instant::now();
         let (s, src) = match build_scenario(spec, rng) { Ok(x) => x, Err(e) => { rep.count("scenario.generation_failed"); rep.note(format!("scenario generation failed: {}", template(&e))); return; } };
         rep.count(&format!("scenario.{}", s.kind));
         // harness self-checks: the independent parser reads the source back to the model; source code length == reference layout
@@ -392,11 +399,13 @@ fn main() {
             rep.nontrivial(common::rng::fnv_str(&shape));
             if s.info.get("must_write").and_then(|v| v.as_bool()) == Some(true) && k == 0 && o.wrote { rep.count("scenario.at_limit_written"); }
         }
+        if std::env::var_os("C02_DEBUG").is_some() && t0.elapsed().as_millis() > 400 { eprintln!("DEBUG slow scenario {:?}: {} ms", spec, t0.elapsed().as_millis()); }
         if let Some(o) = outs.first() {
             if o.attempts_max >= 2 { rep.sample(|| json!({"kind": "large-method scenario", "parameters": s.info, "source_bytes": src.len(), "writer_attempts": o.attempts_max, "jumps_in_long_form": o.widened, "trampolines": o.tramps, "written_code_length": o.code_max, "refused": o.refused})); }
         }
     });
 
+    if std::env::var_os("C02_DEBUG").is_some() { eprintln!("DEBUG scenarios done at {:.1}s", ctx.elapsed_s()); }
     // ---- workload 2: generated classes (same generator as C01) x layouts, plain and renamed
     let cfg = gen::GenCfg::default();
     let big_cfg = gen::GenCfg { max_insns: 400, max_methods: 3, ..gen::GenCfg::default() };
@@ -425,6 +434,7 @@ fn main() {
         }
     });
 
+    if std::env::var_os("C02_DEBUG").is_some() { eprintln!("DEBUG generated done at {:.1}s", ctx.elapsed_s()); }
     // ---- workload 3: javac corpus, as compiled and re-emitted
     let corpus = cf::corpus::load(&ctx.verif_dir);
     run_cases(&ctx, &replay, &mut rep, "corpus", corpus.len() as u64, |rng, rep, i| {
@@ -461,7 +471,7 @@ fn main() {
         meta.oblige("a method of exactly 65535 bytes written", rep.get("max.code_length_written") == 65535);
         meta.oblige("a constant pool with constant_pool_count 65535 written", rep.get("max.pool_count_written") == 65535);
         meta.oblige("a justified 'code too large' refusal observed", rep.get("refusal.code_too_large.strict") + rep.get("refusal.code_too_large.needs_2_byte_ldc_index") > 0);
-        meta.oblige("exception, line-number and local-variable anchors behind / across a jump written in long form", rep.get("anchors.exception_after_widened") > 0 && rep.get("anchors.exception_spanning_widened") > 0 && rep.get("anchors.line_after_widened") > 0 && rep.get("anchors.local_spanning_widened") > 0 && rep.get("anchors.switch_arm_after_widened") > 0);
+        meta.oblige("exception, line-number, local-variable, switch-arm and type-annotation anchors behind / across a jump written in long form", rep.get("anchors.exception_after_widened") > 0 && rep.get("anchors.exception_spanning_widened") > 0 && rep.get("anchors.line_after_widened") > 0 && rep.get("anchors.local_spanning_widened") > 0 && rep.get("anchors.switch_arm_after_widened") > 0 && rep.get("anchors.type_annotation_after_widened") > 0 && rep.get("anchors.type_annotation_range_spanning_widened") > 0);
         meta.oblige("renamed trees judged", rep.get("writes.renamed") >= 100);
         meta.oblige("corpus classes judged", rep.get("corpus.classes") >= 100);
         meta.oblige("at least 150 opcode families in the generated classes, locals in all three index classes", rep.seen_n("insn") >= 150 && rep.seen_n("local") >= 3);
